@@ -22,7 +22,10 @@ class SimFS:
     def __init__(self, outdir: str):
         self.outdir = outdir.rstrip("/")
         self.files: dict[str, str] = {}
-        self.dirs: set[str] = {self.outdir}
+        # only the parent of the output directory exists at first: the generator creates the rest
+        self.dirs: set[str] = {_os.path.dirname(self.outdir)}
+        # simulated locale encoding: what a text file opened *without* an explicit encoding gets
+        self.locale_encoding = "utf-8"
         self.vsrc: dict[str, str] | None = None  # virtual source tree: path -> content
         self.vroot: str | None = None
         self.perm_seed = 0
@@ -34,6 +37,13 @@ class SimFS:
         # logical modification times (ns); far above any real file's mtime, no wall clock involved
         self.clock = 4_000_000_000_000_000_000
         self.mtimes: dict[str, int] = {}
+
+    def wipe(self) -> None:
+        """`--wipe-generated`: the output directory and everything below it disappear."""
+        self.files.clear()
+        self.dirs = {d for d in self.dirs if not (d == self.outdir or d.startswith(self.outdir + "/"))}
+        for k in [k for k in self.mtimes if k == self.outdir or k.startswith(self.outdir + "/")]:
+            del self.mtimes[k]
 
     def tick(self) -> int:
         self.clock += 1_000_000
@@ -89,6 +99,9 @@ class SimFS:
     # ---- the shims
     def open(self, file, mode="r", *args, **kwargs):
         path = _os.path.normpath(str(file))
+        enc = kwargs.get("encoding") or (args[1] if len(args) > 1 else None)
+        if enc in (None, "locale"):
+            enc = self.locale_encoding
         if self.inside(path):
             if "w" in mode:
                 self.site("wopen", path)
@@ -96,23 +109,25 @@ class SimFS:
                     raise FileNotFoundError(_errno.ENOENT, "No such file or directory", path)
                 self.write_opens[path] = self.write_opens.get(path, 0) + 1
                 self.files[path] = ""  # "w" truncates at open
-                return SimFile(self, path, "", truncate_first=True)
+                return SimFile(self, path, "", truncate_first=True, encoding=enc)
             if "+" in mode or "a" in mode:  # r+ : read/modify in place
                 self.site("wopen", path)
                 if path not in self.files:
                     raise FileNotFoundError(_errno.ENOENT, "No such file or directory", path)
                 self.write_opens[path] = self.write_opens.get(path, 0) + 1
-                return SimFile(self, path, self.files[path], truncate_first=False)
+                return SimFile(self, path, self.files[path], truncate_first=False, encoding=enc)
             self.site("ropen", path)
             if path not in self.files:
                 raise FileNotFoundError(_errno.ENOENT, "No such file or directory", path)
-            return SimFile(self, path, self.files[path], truncate_first=False, readonly=True)
+            return SimFile(self, path, self.files[path], truncate_first=False, readonly=True, encoding=enc)
         if self.in_vsrc(path):
             self.site("ropen", path)
             if path not in self.vsrc:
                 raise FileNotFoundError(_errno.ENOENT, "No such file or directory", path)
-            return SimFile(self, path, self.vsrc[path], truncate_first=False, readonly=True)
+            return SimFile(self, path, self.vsrc[path], truncate_first=False, readonly=True, encoding=enc)
         self.site("ropen", path)
+        if "b" not in mode and not kwargs.get("encoding") and len(args) < 2:
+            kwargs["encoding"] = self.locale_encoding  # a real open() would take the locale's encoding
         return SourceFile(self, open(file, mode, *args, **kwargs), path)
 
     def mkdir(self, path: str, exist_ok: bool, parents: bool = False) -> None:
@@ -160,21 +175,25 @@ class SimFile(io.StringIO):
     """In-memory text file; content is committed to the SimFS at close (and partially on a
     failed write, like a real torn write)."""
 
-    def __init__(self, fs: SimFS, path: str, initial: str, truncate_first: bool, readonly: bool = False):
+    def __init__(self, fs: SimFS, path: str, initial: str, truncate_first: bool, readonly: bool = False, encoding: str = "utf-8"):
         super().__init__(initial)
         self.fs = fs
         self.path = path
         self.readonly = readonly
+        self.sim_encoding = encoding
         if truncate_first:
             self.seek(0)
 
     def read(self, *a):
         self.fs.site("read", self.path)
-        return super().read(*a)
+        data = super().read(*a)
+        data.encode("utf-8").decode(self.sim_encoding)  # what TextIOWrapper would do with these bytes
+        return data
 
     def write(self, s):
         if self.readonly:
             raise io.UnsupportedOperation("not writable")
+        s.encode(self.sim_encoding)  # UnicodeEncodeError exactly where TextIOWrapper would raise it
         try:
             self.fs.site("write", self.path)
         except OSError:
@@ -247,6 +266,11 @@ def make_path_class(fs: SimFS):
                 p = _os.path.normpath(str(self))
                 return p in fs.vsrc or any(q.startswith(p + "/") for q in fs.vsrc)
             return super().exists(**kw)
+
+        def open(self, mode="r", buffering=-1, encoding=None, errors=None, newline=None):
+            if fs.inside(self) or fs.in_vsrc(self):
+                return fs.open(str(self), mode, encoding=encoding)
+            return super().open(mode, buffering, encoding, errors, newline)
 
         def stat(self, **kw):
             pth = _os.path.normpath(str(self))
